@@ -52,8 +52,8 @@ Emit(t, s, n) ==
   /\ ~stopped
   /\ n > 0
   /\ s >= cursor
-  /\ OnlySkippable(cursor, s)
-  /\ s + n <= Limit
+  /\ s + n <= Limit                  \* (before OnlySkippable: a span outside the text must disable the
+  /\ OnlySkippable(cursor, s)        \*  action, not index the input out of range)
   /\ emitted' = Append(emitted, [type |-> t, start |-> s, len |-> n])
   /\ cursor' = s + n
   /\ UNCHANGED <<input, stopped>>
